@@ -140,10 +140,10 @@ def td_seconds(ctx: Ctx, fn: FuncInfo, call: ast.Call) -> Optional[float]:
 
 
 def run(ctx: Ctx, rep: Report) -> None:
-    rep.rule("C17-R1", "Counter32 / Counter64 constructors: negative -> 0, otherwise v mod 2^bits (boundary evaluation of the constructor CFG)", floor=20)
-    rep.rule("C17-R2", "TimeTicks <-> timedelta at 100 ticks per second with no truncation of an inexact float", floor=4)
-    rep.rule("C17-R3", "IpAddress: 4 octets, same byte order in both directions", floor=3)
-    rep.rule("C17-R4", "application types: RFC 2578 tags, unsigned decode on every decode hook", floor=10)
+    rep.rule("C17-R1", "Counter32 / Counter64 constructors: negative -> 0, otherwise v mod 2^bits (boundary evaluation of the constructor CFG)", floor=15)
+    rep.rule("C17-R2", "TimeTicks <-> timedelta at 100 ticks per second with no truncation of an inexact float", floor=3)
+    rep.rule("C17-R3", "IpAddress: 4 octets, same byte order in both directions", floor=2)
+    rep.rule("C17-R4", "application types: RFC 2578 tags, unsigned decode on every decode hook", floor=5)
     rep.assumptions += [
         "x690.types.Integer encodes/decodes arbitrary Python integers (its codec over full ranges is not analysed here)",
         "timedelta(seconds=n/100.0) is exact for n < 2**32: the float error (< 5e-9 s) is far below the half microsecond to which timedelta rounds",
@@ -183,19 +183,30 @@ def run(ctx: Ctx, rep: Report) -> None:
             return None
 
         supers = [n for n in own_nodes(init.node) if isinstance(n, ast.Call) and isinstance(n.func, ast.Attribute) and n.func.attr == "__init__" and norm(n.func.value).startswith("super(")]
-        sargs = [norm(a) for a in supers[0].args] + [norm(k.value) for k in supers[0].keywords] if len(supers) == 1 else []
-        passes_value = len(supers) == 1 and sargs == [vparam]
-        rep.check(passes_value, "C17-R1", init.site(), f"{cls.name}: the (normalised) value is what reaches the base constructor", f"{[norm(s) for s in supers]}", key=f"{init.key}|super-arg")
+        # the constructor is evaluated at and around every boundary (engine/minieval.py); what matters is the value
+        # that reaches the x690 base constructor, however the clamp / wrap is written (inline, shared helper, ...)
+        from ..engine.minieval import Instance, MiniEval, Raised, Unevaluable
+
         for v in samples:
-            run_ = run_int_cfg(ctx, init, {vparam: v}, lambda n: None, lambda n, k: None, decide=decide)
+            inst = Instance(cls, [], {})
             want = 0 if v < 0 else v % mod
-            got = run_.state.get(vparam)
+            text = f"{cls.name}({v if abs(v) < 10**12 else hex(v)}) stores {want if want < 10**12 else hex(want)}"
+            try:
+                MiniEval(ctx).call_function(init, [inst, v])
+            except Unevaluable as exc:
+                rep.undecided("C17-R1", init.site(), text, f"not evaluable: {exc}")
+                continue
+            except Raised as exc:
+                rep.violated("C17-R1", init.site(), text, f"raises {exc.value!r}", key=f"{init.key}|wrap-clamp")
+                continue
+            calls = [c for c in inst.attrs.get("__super_calls__", []) if c[0] == "__init__"]
+            got = (calls[-1][1][0] if calls[-1][1] else calls[-1][2].get("value")) if calls else None
             rep.check(
-                run_.end == "return" and got == want,
+                len(calls) == 1 and got == want and type(got) is int,
                 "C17-R1",
                 init.site(),
-                f"{cls.name}({v if abs(v) < 10**12 else hex(v)}) stores {want if want < 10**12 else hex(want)}",
-                f"run ended '{run_.end}' with value {got}",
+                text,
+                f"the base constructor receives {got!r} ({len(calls)} call(s))",
                 key=f"{init.key}|wrap-clamp",
             )
     # ------------------------------------------------------------ R2
